@@ -109,7 +109,16 @@ if __name__ == "__main__":
         p.start()
         p.join(30)
         from multiprocessing.connection import wait
-        st.append([how, v, p.exitcode, bool(wait([p.sentinel], 0))])
+        code, _alive = p.exitcode, p.is_alive()            # the status has been collected ...
+        extra = [os.pipe() for _ in range(3)]              # ... the parent goes on opening descriptors (pipes, another worker) ...
+        q = ctx.Process(target=time.sleep, args=(20,))
+        q.start()
+        st.append([how, v, code, bool(wait([p.sentinel], 0.5))])   # ... and the dead worker's sentinel must still say "dead"
+        q.terminate()
+        q.join(10)
+        for r_, w_ in extra:
+            os.close(r_)
+            os.close(w_)
     out["deaths"] = st
     # a failing initializer breaks the pool instead of yielding an uninitialised worker
     def bad_init():
